@@ -163,6 +163,7 @@ const (
 	FaultError      = "error"                          // plain error
 	FaultGGQLError  = "ggql_error"                     // *ggql.Error with extensions
 	FaultErrorGroup = "error_group"                    // ggql.Errors with two members
+	FaultNthGroup   = "nth_error_group"                // AnyResolver.Nth fails with a ggql.Errors of two members: one entry each, both at the member's index
 	FaultNthError   = "nth_error"                      // AnyResolver.Nth error
 	FaultBadLeaf    = "bad_leaf"                       // un-coercible leaf value
 	FaultGroupExt   = "error_group_with_extensions"    // ggql.Errors whose members are *ggql.Error with extensions
@@ -304,7 +305,14 @@ func (tr *Tracker) enter(typ, field string, args map[string]interface{}, path st
 		kind = FaultError
 	}
 	if typ == "list" {
-		kind = FaultNthError
+		if kind == FaultNthGroup || (kind != FaultNthError && tr.N%3 == 0) {
+			kind = FaultNthGroup
+		} else {
+			kind = FaultNthError
+		}
+	}
+	if kind == FaultNthGroup && typ != "list" {
+		kind = FaultError
 	}
 	tag := "#" + strconv.Itoa(tr.N) + "#"
 	f := Fired{N: tr.N, Path: path, Kind: kind, Members: 1, Tag: tag, Field: field}
@@ -321,6 +329,9 @@ func (tr *Tracker) enter(typ, field string, args map[string]interface{}, path st
 		return kind, ggql.Errors{errors.New("injected member 1 " + tag), errors.New("injected member 2 " + tag)}
 	case FaultNthError:
 		return kind, errors.New("injected nth failure " + tag)
+	case FaultNthGroup:
+		f.Members = 2
+		return kind, ggql.Errors{errors.New("injected nth member 1 " + tag), errors.New("injected nth member 2 " + tag)}
 	case FaultGroupExt:
 		f.Members = 2
 		return kind, ggql.Errors{
